@@ -529,10 +529,12 @@ def explore(alphabet, depth, prefix):
 
 
 # ------------------------------------------------------------------ keys
-def op_kind(op, klass):
+def op_kind(op, klass, dflt="?"):
+    """kind of an operation; dflt = the default system of its registry when it runs ("?" = unknown:
+    every explicit system= counts).  An explicit system= equal to the default is the plain call."""
     k = op[0]
     if k == "other":
-        return "other:" + op_kind(op[1], klass)
+        return "other:" + op_kind(op[1], klass, dflt)
     if k == "mkother":
         return "other:create"
     name = {"convert": "convert", "parse": "parse", "root": "get_root_units", "dim": "get_dimensionality",
@@ -540,13 +542,28 @@ def op_kind(op, klass):
             "disable": "disable", "setsys": "set_default_system", "qnew": "quantity.new", "qimul": "quantity.imul",
             "qdim": "quantity.dimensionality", "qcheck": "quantity.check", "fmt": "format", "qfmt": "format",
             "compact": "to_compact", "to": "quantity.to", "compatible": "is_compatible_with", "contains": "contains"}[k]
-    if k == "base" and op[2] is not None:
+    if k == "base" and op[2] is not None and op[2] != dflt:
         name += "[system=]"
     if k == "setsys" and op[1] is None:
         name += "[None]"
     if k == "enable":
         name += "[redef]" if op[1] in REDEF else "[rules]" if op[1] in RULES else "[plain]"
     return name
+
+
+def kinds_of(ops, klass):
+    """kinds along a history, tracking the default system of both registries"""
+    d = ["mks", "mks"]
+    out = []
+    for op in ops:
+        r = 1 if op[0] in ("other", "mkother") else 0
+        inner = op[1] if op[0] == "other" else op
+        out.append(op_kind(op, klass, d[r]))
+        if op[0] == "mkother":
+            d[1] = "mks"
+        elif inner[0] == "setsys" and (inner[1] is None or inner[1] in SYSTEMS):
+            d[r] = inner[1]
+    return out
 
 
 def query_qual(op, klass):
@@ -839,6 +856,29 @@ QUIRK_NAMES = ["F3 q_lazy_visible", "F7 q_bcache_ctx_blind", "F100 q_bcache_sysa
 
 
 # ------------------------------------------------------------------ the check
+def _inner(op):
+    return op[1] if op[0] == "other" else op
+
+
+def _names_of(op):
+    """the unit names an operation mentions (strings split at operators), plus the keys a define adds"""
+    import re
+    inner = _inner(op)
+    out = []
+    for x in inner[1:]:
+        if isinstance(x, str):
+            out += [w for w in re.split(r"[^A-Za-z_]+", x) if w]
+    if inner[0] == "define":
+        out += DEFS[inner[1]]["keys"]
+    more = []
+    for w in out:
+        for d in DEFS.values():
+            for k in d["keys"]:
+                if k in w and k != w:
+                    more.append(k)
+    return out + more
+
+
 def is_subseq(small, big):
     it = iter(big)
     return all(any(x == y for y in it) for x in small)
@@ -856,6 +896,8 @@ class Checker:
         self.trials = 0
         self.memo = {}
         self.minimals = []      # (ops tuple, real, fresh, key)
+        self.patterns = set()   # kind sequences of the minimal histories (final kind with qualifier)
+        self.instantiated = 0
         self.found = {}         # key -> (desc, replay)
         self.unminimised = 0
 
@@ -877,9 +919,20 @@ class Checker:
         return res
 
     def minimise(self, ops):
-        """delta debugging on the operation list (the last op, the query, stays): remove chunks of
-        decreasing size while the discrepancy with the oracle persists"""
+        """slicing, then delta debugging on the operation list (the last op, the query, stays):
+        remove chunks of decreasing size while the discrepancy with the oracle persists"""
         cur = list(ops)
+        last = cur[-1]
+        r = 1 if last[0] in ("other", "mkother") else 0
+        # slice 1: operations on the other registry
+        cand = [o for o in cur[:-1] if (1 if o[0] in ("other", "mkother") else 0) == r] + [last]
+        if len(cand) < len(cur) and self.discrepancy(cand) is not None:
+            cur = cand
+        # slice 2: queries that mention none of the names of the final question
+        strs = set(_names_of(last))
+        cand = [o for o in cur[:-1] if _inner(o)[0] not in QUERY_KINDS or strs & set(_names_of(o))] + [last]
+        if len(cand) < len(cur) and self.discrepancy(cand) is not None:
+            cur = cand
         n = max(1, (len(cur) - 1) // 2)
         while n >= 1:
             i = 0
@@ -892,13 +945,50 @@ class Checker:
             n //= 2
         return cur
 
+    def instantiate(self, hist, real, fa):
+        """try the known minimal patterns on this history: a subsequence with the same kinds that ends
+        in this question; one short run decides.  Returns (small, (real, fresh)) or None"""
+        ks = kinds_of(hist, self.klass)
+        final = ks[-1] + query_qual(hist[-1], self.klass)
+        strs = set(_names_of(hist[-1]))
+        tried = 0
+        for pat in sorted(self.patterns, key=len):
+            if pat[-1] != final:
+                continue
+            # candidate indices per pattern position, most related / latest first
+            pos = []
+            ok = True
+            for kind in pat[:-1]:
+                idx = [i for i in range(len(hist) - 1) if ks[i] == kind]
+                if not idx:
+                    ok = False
+                    break
+                idx.sort(key=lambda i: (0 if strs & set(_names_of(hist[i])) else 1, -i))
+                pos.append(idx[:4])
+            if not ok:
+                continue
+            import itertools
+            for combo in itertools.islice(itertools.product(*pos), 8):
+                if any(a >= b for a, b in zip(combo, combo[1:])):
+                    continue
+                cand = [hist[i] for i in combo] + [hist[-1]]
+                tried += 1
+                d = self.discrepancy(cand)
+                if d is not None:
+                    return cand, d
+                if tried >= 24:
+                    return None
+        return None
+
     def key_of(self, ops):
-        return ("history:" + "+".join(op_kind(o, self.klass) for o in ops[:-1]) + "→"
-                + op_kind(ops[-1], self.klass) + query_qual(ops[-1], self.klass))
+        ks = kinds_of(ops, self.klass)
+        return "history:" + "+".join(ks[:-1]) + "→" + ks[-1] + query_qual(ops[-1], self.klass)
 
     def add_minimal(self, small, real, fa):
         key = self.key_of(small)
         self.minimals.append((tuple(small), real, fa, key))
+        ks = kinds_of(small, self.klass)
+        self.patterns.add(tuple(ks[:-1]) + (ks[-1] + query_qual(small[-1], self.klass),))
         if key not in self.found or len(self.found[key][1]["history"]) > len(small):
             self.found[key] = (f"after {[list(o) for o in small[:-1]]} the question {list(small[-1])} is answered {real}; "
                                f"a freshly built registry in the same declarative state answers {fa}",
@@ -945,8 +1035,8 @@ class Checker:
             if self.minimised + len(batch) > budget:
                 for hist, real, fa in todo:
                     self.unminimised += 1
-                    key = ("history:" + "+".join(sorted({op_kind(o, self.klass) for o in hist[:-1]})) + "→"
-                           + op_kind(hist[-1], self.klass) + query_qual(hist[-1], self.klass) + ":unminimised")
+                    ks = kinds_of(hist, self.klass)
+                    key = "history:" + "+".join(sorted(set(ks[:-1]))) + "→" + ks[-1] + query_qual(hist[-1], self.klass) + ":unminimised"
                     self.found.setdefault(key, (f"history of {len(hist)} operations ending in {list(hist[-1])}: answered {real}, fresh registry {fa} (minimisation budget exhausted)",
                                                 {"history": [list(o) for o in hist], "real": repr(real), "fresh": repr(fa)}))
                 return
@@ -954,8 +1044,11 @@ class Checker:
                 pass
             self.fresh.prebuild()
             res = parallel(lambda t: self._min_one(t), batch)
-            for small, d, trials in res:
-                self.minimised += 1
+            for small, d, trials, inst in res:
+                if inst:
+                    self.instantiated += 1
+                else:
+                    self.minimised += 1
                 self.trials += trials
                 self.add_minimal(small, d[0], d[1])
             todo = []
@@ -968,11 +1061,14 @@ class Checker:
     def _min_one(self, t):
         hist, real, fa = t
         t0 = self.trials
+        got = self.instantiate(hist, real, fa)
+        if got is not None:
+            return got[0], got[1], self.trials - t0, True
         small = self.minimise(hist)
         d = self.discrepancy(small)
         if d is None:
             small, d = hist, (real, fa)
-        return small, d, self.trials - t0
+        return small, d, self.trials - t0, False
 
 
 def flatten_tree(prefix_ops, nodes, out):
@@ -1023,6 +1119,7 @@ def run(ck):
     ck.extra["oracle_questions_asked"] = fresh.asked
     ck.extra["histories_minimised"] = chk.minimised
     ck.extra["discrepancies_explained_by_a_known_minimal_history"] = chk.shortcuts
+    ck.extra["discrepancies_explained_by_instantiating_a_known_pattern"] = chk.instantiated
     ck.extra["minimisation_trials"] = chk.trials
     ck.extra["harness_seconds"] = round(time.time() - t0, 1)
 
@@ -1095,7 +1192,7 @@ def _run(ck, rng, thorough, klass, tk, systems, fresh, chk, coq_ok):
         if f != ans:
             ndis += 1
             disc.append((ops, i, ans, f))
-    chk.process(disc, 400 if thorough else 150)
+    chk.process(disc, 600 if thorough else 150)
     T["minimise"] = time.time()
     ck.count("oracle-compared-steps", len(tasks))
     ck.count("oracle-discrepant-steps", ndis)
